@@ -1625,26 +1625,36 @@ def released(p, uid):
     return sum(ids.count(uid) for chan, ids in p.pub if chan == 'agent_unschedule_pubsub')
 
 
-@builder('utils/component.py:BaseComponent.is_canceled#executor',
+@builder('agent/executing/base.py:AgentExecutingComponent.is_canceled',
          'utils/component.py:BaseComponent.is_canceled')
 def intake_cancel(case, rp):
-    p = mk_popen(rp)
-    p._cancel_list = ['task.0001']
-    placed = {'uid': 'task.0001', 'state': 'AGENT_EXECUTING_PENDING',
-              'slots': [{'node_index': 0, 'cores': [{'index': 0, 'occupation': 1.0}], 'gpus': []}]}
-    other = {'uid': 'task.0002', 'state': 'AGENT_EXECUTING_PENDING', 'slots': []}
+    """the executor's is_canceled on the real code: a named task is reported CANCELED
+    once; if it holds a placement and has no process yet, its release is requested
+    exactly once; a task that has a process, or is not named, is not released here"""
     probs = []
-    if p.is_canceled(other) is not False or p.adv:
-        probs.append('a task that was not named was canceled')
-    r = p.is_canceled(placed)
-    if r is not True: probs.append('named task not reported canceled')
-    if ('task.0001', 'CANCELED', None) not in p.adv: probs.append('named task not advanced to CANCELED')
-    if '#executor' in case.get('function', '') and released(p, 'task.0001') != 1:
-        probs.append('task.0001 held a placement (1 core on node 0) and was canceled at the '
-                     'executor intake, but its release was requested %d times: the core stays BUSY'
-                     % released(p, 'task.0001'))
-    return dict(confirmed=bool(probs), detail='; '.join(probs) or 'intake cancel behaves',
-                input=dict(cancel_list=['task.0001'], task=placed))
+    for has_proc in (False, True):
+        p = mk_popen(rp)
+        p._cancel_list = ['task.0001']
+        placed = {'uid': 'task.0001', 'state': 'AGENT_EXECUTING_PENDING',
+                  'slots': [{'node_index': 0, 'cores': [{'index': 0, 'occupation': 1.0}], 'gpus': []}]}
+        if has_proc: placed['proc'] = _FakeProc(None)
+        other = {'uid': 'task.0002', 'state': 'AGENT_EXECUTING_PENDING', 'slots': []}
+        if p.is_canceled(other) is not False or p.adv or p.pub:
+            probs.append('a task that was not named was canceled or released')
+        r = p.is_canceled(placed)
+        if r is not True: probs.append('named task not reported canceled')
+        if ('task.0001', 'CANCELED', None) not in p.adv: probs.append('named task not advanced to CANCELED')
+        k = released(p, 'task.0001')
+        if not has_proc and k != 1:
+            probs.append('task.0001 held a placement (1 core on node 0), has no process yet and was given up as canceled, '
+                         'but its release was requested %d times (expected once): the core stays BUSY' % k)
+        if has_proc and k != 0:
+            probs.append('task.0001 already has a process (cancel_task / the watcher will release it), but is_canceled requested its release %d times' % k)
+        if p.is_canceled(placed) is not False:
+            probs.append('the cancel request was not consumed')
+        if probs:
+            return dict(confirmed=True, detail='; '.join(probs[:3]), input=dict(cancel_list=['task.0001'], task_has_process=has_proc))
+    return dict(confirmed=False, detail='intake cancel behaves: released once before launch, left alone after')
 
 
 @builder('agent/executing/popen.py:Popen._check_running', 'agent/executing/popen.py:Popen.cancel_task',
